@@ -66,6 +66,17 @@ def gen_cases(tier, seed):
         if rng.random() < 0.3 and base["planted"]:
             cons = I.constraints_from_planted(rng, base, as_nodes=True)
             c["cons"] = gen.jl(cons); c["cov"] = rng.choice([1.0, 1.0, 0.5])
+        if not node and rng.random() < 0.3:
+            # a 'crossing' subset constraint: an edge inside a strongly connected component together with some other edge, whether or not a planted
+            # walk contains both (a walk may go round the cycle many times and still miss the other edge; if no walk contains both the instance
+            # has no constrained decomposition and 'unsolved' is the right answer)
+            comp_ = ref.scc_map(gen.build(I.spec_of(base)))
+            inner_ = [e for e in base["edges"] if comp_[e[0]] == comp_[e[1]]]
+            if inner_:
+                e1 = rng.choice(inner_); others = [e for e in base["edges"] if e != e1]
+                if others:
+                    pick = [e1, rng.choice(others)] + ([rng.choice(inner_)] if rng.random() < 0.3 else [])
+                    c["cons"] = c["cons"] + gen.jl([list(dict.fromkeys(pick))]); c["crossing"] = True
         if rng.random() < 0.2 and len(base["edges"]) >= 3:
             ign = I.pick_ignore(rng, base, 0.2)
             c["ignore"] = gen.jl(ign)
@@ -165,7 +176,7 @@ def run_opt(case, viol, obs):
         viol.append({"sig": f"C04/{res['stage']}-raises/{res['exc'][0]}{tagstr}", "msg": f"{res['exc']}; reference optimum {kstar}; {desc}"})
     elif kstar is None:
         if res["solved"]:
-            if ign:
+            if ign or case.get("crossing"):
                 obs["c04.bounded_reference_beaten"] += 1     # with ignored elements the reference is a bounded witness search: no alarm
             else:
                 viol.append({"sig": "C04/solved-but-reference-infeasible" + tagstr, "msg": desc})
@@ -173,7 +184,16 @@ def run_opt(case, viol, obs):
         viol.append({"sig": "C04/unsolved" + tagstr, "msg": f"solve() returned {res.get('solve_ret')} but {kstar} walks decompose the flow ({ncols} Euler vectors); {desc}"})
     else:
         got = len(res["sol"]["walks"])
-        if got < kstar and ign:
+        if cons and mode == "edge":
+            # the returned walks are a decomposition UNDER the constraints only if every constraint is met by a single walk
+            obs["c04.constraints_checked_on_solution"] += 1
+            for cc in cons:
+                cs = set(cc)
+                if not any(sum(1 for e in cs if e in set(zip(w_, w_[1:]))) >= len(cs) * case["cov"] - 1e-12 for w_ in res["sol"]["walks"]):
+                    viol.append({"sig": "C04/returned-walks-do-not-satisfy-a-subset-constraint" + tagstr, "msg": f"constraint {cc} (coverage {case['cov']}) is met by none of {res['sol']['walks']}; {desc}"})
+                    break
+        if got < kstar and (ign or case.get("crossing")):
+            # (with ignored elements, and with constraints that zero-weight walks of high multiplicity may serve, the reference is a bounded witness search)
             obs["c04.bounded_reference_beaten"] += 1
         elif got != kstar:
             mech = tagstr
